@@ -55,8 +55,11 @@ def bit(value: int, byte: int, position: int) -> int:
     :param value: Value to encode
     :param byte: The byte to apply the value to
     :param position: The position in the byte to set the bit on
+    :raises TypeError: when the value is not a boolean (or 0 / 1)
 
     """
+    if not isinstance(value, int) or value not in (0, 1):
+        raise TypeError('bool required, received {!r}'.format(value))
     return byte | (value << position)
 
 
